@@ -156,10 +156,11 @@ PROPS = {
     },
     "C08": {
         "cli": True,
-        "extra_imports": ["Gofasta.Lemmas.Balance", "Gofasta.Lemmas.PushBins", "Gofasta.Lemmas.WhichWaySpec"],
+        "extra_imports": ["Gofasta.Lemmas.Balance", "Gofasta.Lemmas.PushBins", "Gofasta.Lemmas.WhichWaySpec", "Gofasta.Lemmas.TopRankingSpec"],
         "extra_theorems": ["Gofasta.Lemmas.PushBins.pushBin_eq", "Gofasta.Lemmas.PushBins.pushMap_mem_keys_iff", "Gofasta.Lemmas.PushBins.topRankingQuery_push", "Gofasta.Lemmas.WhichWaySpec.whichWayTable_spec", "Gofasta.Lemmas.WhichWaySpec.whichWay_getLine", "Gofasta.Lemmas.WhichWaySpec.topRankingQuery_getLine", "Gofasta.Lemmas.fillLoop_inv", "Gofasta.Lemmas.fillLoop_sum_le", "Gofasta.Lemmas.fillLoop_mono",
                            "Gofasta.Lemmas.fillLoop_complete", "Gofasta.Lemmas.balance_fill_spec", "Gofasta.Lemmas.fillLoop_even",
-                           "Gofasta.Lemmas.balance_even"],
+                           "Gofasta.Lemmas.balance_even",
+                           "Gofasta.Lemmas.TopRankingSpec.model_passes_checker", "Gofasta.Lemmas.TopRankingSpec.model_passes_checker_args", "Gofasta.Lemmas.TopRankingSpec.checkBins_binsOf", "Gofasta.Lemmas.TopRankingSpec.checkBins_eq", "Gofasta.Lemmas.TopRankingSpec.prefixOk", "Gofasta.Lemmas.TopRankingSpec.distOk", "Gofasta.Lemmas.TopRankingSpec.size_facts", "Gofasta.Lemmas.TopRankingSpec.sumOk_of", "Gofasta.Lemmas.TopRankingSpec.nofillOk_of", "Gofasta.Lemmas.TopRankingSpec.atLeast_of", "Gofasta.Lemmas.TopRankingSpec.fillOk_of", "Gofasta.Lemmas.TopRankingSpec.evenOk_of", "Gofasta.Lemmas.TopRankingSpec.pushOk", "Gofasta.Lemmas.TopRankingSpec.sortCands_eq", "Gofasta.Lemmas.TopRankingSpec.topKG_eq", "Gofasta.Lemmas.TopRankingSpec.binsOf_nopush", "Gofasta.Lemmas.TopRankingSpec.binsOf_push", "Gofasta.Lemmas.TopRankingSpec.balance_bounds", "Gofasta.Lemmas.TopRankingSpec.balance_nofill", "Gofasta.Lemmas.TopRankingSpec.balance_fill"],
         "streams": {"C08": (600, 10000)},
         "thorough_seeds": 3,
         "shrink": True,
